@@ -96,7 +96,17 @@ func (g gen) service(name string, proxy bool) map[string]any {
 	return s
 }
 
-func (g gen) endpoint(label, url string) map[string]any {
+// endpoint: an endpoint in its long form (a structure), or - if nothing but the url is to be said - possibly in the short
+// form, the url as a string
+func (g gen) endpoint(label, url string) any {
+	if rapid.IntRange(0, 4).Draw(g.t, label+".shortForm") == 0 {
+		return url
+	}
+
+	return g.endpointLong(label, url)
+}
+
+func (g gen) endpointLong(label, url string) map[string]any {
 	e := map[string]any{"url": url}
 
 	if g.maybe(label + ".method") {
@@ -772,6 +782,19 @@ func TestFileAndEnvironmentAreEquivalent(t *testing.T) {
 		)
 
 		for i, l := range all {
+			// an endpoint given in its short form in the file and, member by member, in the environment: the latter wins
+			if last, _ := l.Path[len(l.Path)-1].(string); strings.HasSuffix(last, "endpoint") {
+				if short, isShort := l.Value.(string); isShort && rapid.IntRange(0, 2).Draw(t, fmt.Sprintf("conflict.%d", i)) == 0 {
+					member := leaf{Path: append(append([]any{}, l.Path...), "url"), Value: short + "/from-the-environment"}
+					conflicts = append(conflicts, member)
+					expected = append(expected, member)
+
+					vkit.S.Label("conflict_endpoint_short_form_in_file_long_form_in_environment")
+
+					continue
+				}
+			}
+
 			alt, ok := alternative(l)
 			if ok && rapid.IntRange(0, 5).Draw(t, fmt.Sprintf("conflict.%d", i)) == 0 {
 				conflicts = append(conflicts, leaf{Path: l.Path, Value: alt})
